@@ -435,4 +435,693 @@ theorem eff_appendS {s s' : St} (h : Inv s) {v : Nat} (hv : v < s.n) {w : Nat}
     rw [E1.self] at E2
     exact E1.trans E2
 
+/-! ### temporaries: `assignTemp`, `substr`, `prepend` -/
+
+theorem eff_assignTemp {s s' : St} (h : Inv s) {v tmp : Nat} (hv : v < s.n) (ht : tmp < s.n) (hne : v ≠ tmp)
+    (h0 : absVar s tmp = []) {src : List Byte} (e : assignTemp s v src tmp = some s') : Eff s s' v src := by
+  simp only [assignTemp, Option.bind_eq_bind, Option.pure_def] at e
+  cases h1 : ctorPtr s tmp src with
+  | none => simp [h1] at e
+  | some s1 =>
+    simp only [h1, Option.bind_some] at e
+    have E1 := eff_ctorPtr h ht h1
+    cases h2 : assign s1 v tmp with
+    | none => simp [h2] at e
+    | some s2 =>
+      simp only [h2, Option.bind_some, Option.some.injEq] at e
+      subst e
+      have E2 := eff_assign E1.inv (by rw [E1.n]; exact hv) h2
+      have E3 := eff_setEmpty E2.inv (v := tmp) (by rw [E2.n, E1.n]; exact ht)
+      refine ⟨E3.inv, by rw [E3.n, E2.n, E1.n], by rw [E3.regs, E2.regs, E1.regs], ?_, ?_⟩
+      · rw [E3.other v hne, E2.self, E1.self]
+      · intro w hw
+        by_cases hwt : w = tmp
+        · subst hwt; rw [E3.self, h0]
+        · rw [E3.other w hwt, E2.other w hw, E1.other w hwt]
+
+theorem substrRange_le (len : Nat) (start length : Int) : (substrRange len start length).2 ≤ len := by
+  unfold substrRange
+  simp only
+  by_cases c : length ≥ 0
+  · simp only [c, if_true]
+    generalize (if start < 0 then (if (len : Int) + start < 0 then 0 else ((len : Int) + start).toNat)
+      else if start.toNat > len then len else start.toNat) = st
+    by_cases c2 : st + length.toNat > len
+    · simp only [c2, if_true]; exact Nat.le_refl _
+    · simp only [c2, if_false]; omega
+  · simp only [c, if_false]; exact Nat.le_refl _
+
+theorem eff_substr {s s' : St} (h : Inv s) {v w tmp : Nat} (hv : v < s.n) (ht : tmp < s.n) (hne : v ≠ tmp)
+    (h0 : absVar s tmp = []) {start length : Int} (e : substr s v w start length tmp = some s') :
+    Eff s s' v (subList (absVar s w) start length) := by
+  obtain ⟨d, hd⟩ := desc_some h w
+  have hlen := desc_len h hd
+  simp only [substr, hd, Option.bind_eq_bind, Option.bind_some] at e
+  cases hr : rdRange s d.base (d.off + (substrRange d.len start length).1)
+      ((substrRange d.len start length).2 - (substrRange d.len start length).1) with
+  | none => simp [hr] at e
+  | some src =>
+    simp only [hr, Option.bind_some] at e
+    have E := eff_assignTemp h hv ht hne h0 e
+    refine E.val_eq ?_
+    -- the loaded range is the sub-list of the chars
+    have hall := rd_all h hd
+    simp only [rdRange, Option.bind_eq_bind] at hr hall
+    cases hm : memOf s d.base with
+    | none => simp [hm] at hr
+    | some mm =>
+      simp only [hm, Option.bind_some, rdList] at hr hall
+      split at hall
+      · rename_i c1
+        split at hr
+        · injection hr with hr
+          injection hall with hall
+          subst hr
+          unfold subList
+          rw [← hlen, ← hall]
+          simp only [List.drop_take, List.drop_drop, List.take_take]
+          congr 1
+          have := substrRange_le d.len start length
+          omega
+        · cases hr
+      · cases hall
+
+theorem wr3_take {m m1 m2 m3 a b : List Byte} (h1 : wr m 0 a = some m1) (h2 : wr m1 a.length b = some m2)
+    (h3 : wr m2 (a.length + b.length) [some 0] = some m3) : m3.take (a.length + b.length) = a ++ b := by
+  rw [wr_take h3 (Nat.le_refl _), wr_take_end h2]
+  have := wr_take_end h1
+  simp only [Nat.zero_add, List.take_zero, List.nil_append] at this
+  rw [this]
+
+/-- the common tail of both `prepend`s: `a` then the old chars `b` into the exclusively owned block -/
+theorem eff_putFront {s s' : St} (h : Inv s) {v : Nat} {C : Nat} (X : Excl s v 0 C) {a b : List Byte}
+    (e : (do
+      let dv ← desc s v
+      let m ← memOf s dv.base
+      let m ← wr m 0 a
+      let m ← wr m a.length b
+      let m ← wr m (a.length + b.length) [some 0]
+      writeOwn s v m (a.length + b.length)) = some s') : Eff s s' v (a ++ b) := by
+  obtain ⟨bk, blk, hloc, hb, r1, hl, _⟩ := X
+  have W := h.wf bk blk hb
+  simp only [desc_blk hloc hb, memOf, hb, Option.bind_eq_bind, Option.bind_some, Option.map_some] at e
+  cases hm1 : wr blk.bytes 0 a with
+  | none => simp [hm1] at e
+  | some m1 =>
+    simp only [hm1, Option.bind_some] at e
+    cases hm2 : wr m1 a.length b with
+    | none => simp [hm2] at e
+    | some m2 =>
+      simp only [hm2, Option.bind_some] at e
+      cases hm3 : wr m2 (a.length + b.length) [some 0] with
+      | none => simp [hm3] at e
+      | some m3 =>
+        simp only [hm3, Option.bind_some] at e
+        have hl3 : m3.length = blk.cap + 1 := by rw [wr_length hm3, wr_length hm2, wr_length hm1, W.1]
+        have hc : a.length + b.length ≤ blk.cap := by
+          have := (wr_eq hm3).1
+          simp only [List.length_cons, List.length_nil, wr_length hm2, wr_length hm1, W.1] at this; omega
+        have inv' := inv_writeOwn h e (by
+          intro b' blk' hv' hb'
+          rw [hloc] at hv'; injection hv' with hv'; subst hv'
+          rw [hb] at hb'; injection hb' with hb'; subst hb'
+          exact ⟨hl3, hc, wr_get hm3⟩)
+        have F := writeOwn_fields e
+        exact ⟨inv', F.1, F.2.1, by rw [abs_writeOwn_self e, wr3_take hm1 hm2 hm3],
+          fun w hw => abs_writeOwn_other h e hw⟩
+
+theorem resizeL_zero (a : List Byte) : resizeL a 0 = [] := by simp [resizeL]
+
+theorem eff_prependS {s s' : St} (h : Inv s) {v w tmp : Nat} (hv : v < s.n) (ht : tmp < s.n) (hne : v ≠ tmp)
+    (hwt : w ≠ tmp) (h0 : absVar s tmp = []) (e : prependS s v w tmp = some s') :
+    Eff s s' v (absVar s w ++ absVar s v) := by
+  simp only [prependS, Option.bind_eq_bind, Option.pure_def] at e
+  cases h1 : ctorCopy s tmp v with
+  | none => simp [h1] at e
+  | some s1 =>
+    simp only [h1, Option.bind_some] at e
+    have E1 := eff_ctorCopy h ht h1
+    have hv1 : v < s1.n := by rw [E1.n]; exact hv
+    generalize hw' : (if w = v then tmp else w) = w' at e
+    have hw'v : w' ≠ v := by
+      rw [← hw']; by_cases c : w = v
+      · simp only [c, if_true]; exact fun x => hne x.symm
+      · simp only [c, if_false]; exact c
+    have habs : absVar s1 w' = absVar s w := by
+      rw [← hw']; by_cases c : w = v
+      · simp only [c, if_true]; rw [E1.self]
+      · simp only [c, if_false]; exact E1.other w hwt
+    obtain ⟨dw, hdw⟩ := desc_some E1.inv w'
+    obtain ⟨dc, hdc⟩ := desc_some E1.inv tmp
+    have hlw := desc_len E1.inv hdw
+    have hlc := desc_len E1.inv hdc
+    simp only [hdw, hdc, Option.bind_some] at e
+    cases h2 : detach s1 v 0 (dw.len + dc.len) with
+    | none => simp [h2] at e
+    | some s2 =>
+      simp only [h2, Option.bind_some] at e
+      obtain ⟨E2, X⟩ := eff_detach E1.inv hv1 h2
+      have ha : absVar s2 w' = absVar s w := by rw [E2.other w' hw'v, habs]
+      have hb : absVar s2 tmp = absVar s v := by rw [E2.other tmp (fun x => hne x.symm), E1.self]
+      simp only [content_eq E2.inv, Option.bind_some, ha, hb] at e
+      rw [hlw, hlc, habs, E1.self] at e X
+      -- split off the final destruction of the temporary
+      cases h3 : (do
+          let dv ← desc s2 v
+          let m ← memOf s2 dv.base
+          let m ← wr m 0 (absVar s w)
+          let m ← wr m (absVar s w).length (absVar s v)
+          let m ← wr m ((absVar s w).length + (absVar s v).length) [some 0]
+          writeOwn s2 v m ((absVar s w).length + (absVar s v).length)) with
+      | none =>
+        simp only [Option.bind_eq_bind] at h3
+        cases hd2 : desc s2 v with
+        | none => simp [hd2] at e
+        | some dv =>
+          simp only [hd2, Option.bind_some] at e h3
+          cases hm0 : memOf s2 dv.base with
+          | none => simp [hm0] at e
+          | some mm =>
+            simp only [hm0, Option.bind_some] at e h3
+            cases hm1 : wr mm 0 (absVar s w) with
+            | none => simp [hm1] at e
+            | some m1 =>
+              simp only [hm1, Option.bind_some] at e h3
+              cases hm2 : wr m1 (absVar s w).length (absVar s v) with
+              | none => simp [hm2] at e
+              | some m2 =>
+                simp only [hm2, Option.bind_some] at e h3
+                cases hm3 : wr m2 ((absVar s w).length + (absVar s v).length) [some 0] with
+                | none => simp [hm3] at e
+                | some m3 =>
+                  simp only [hm3, Option.bind_some] at e h3
+                  simp [h3] at e
+      | some s3 =>
+        have E3 := eff_putFront E2.inv X h3
+        simp only [Option.bind_eq_bind] at h3
+        cases hd2 : desc s2 v with
+        | none => simp [hd2] at h3
+        | some dv =>
+          simp only [hd2, Option.bind_some] at e h3
+          cases hm0 : memOf s2 dv.base with
+          | none => simp [hm0] at h3
+          | some mm =>
+            simp only [hm0, Option.bind_some] at e h3
+            cases hm1 : wr mm 0 (absVar s w) with
+            | none => simp [hm1] at h3
+            | some m1 =>
+              simp only [hm1, Option.bind_some] at e h3
+              cases hm2 : wr m1 (absVar s w).length (absVar s v) with
+              | none => simp [hm2] at h3
+              | some m2 =>
+                simp only [hm2, Option.bind_some] at e h3
+                cases hm3 : wr m2 ((absVar s w).length + (absVar s v).length) [some 0] with
+                | none => simp [hm3] at h3
+                | some m3 =>
+                  simp only [hm3, Option.bind_some] at e h3
+                  simp only [h3, Option.bind_some, Option.some.injEq] at e
+                  subst e
+                  have E4 := eff_setEmpty E3.inv (v := tmp) (by rw [E3.n, E2.n, E1.n]; exact ht)
+                  refine ⟨E4.inv, by rw [E4.n, E3.n, E2.n, E1.n], by rw [E4.regs, E3.regs, E2.regs, E1.regs], ?_, ?_⟩
+                  · rw [E4.other v hne, E3.self]
+                  · intro u hu
+                    by_cases hut : u = tmp
+                    · subst hut; rw [E4.self, h0]
+                    · rw [E4.other u hut, E3.other u hu, E2.other u hu, E1.other u hut]
+
+theorem eff_prependP {s s' : St} (h : Inv s) {v tmp : Nat} (hv : v < s.n) (ht : tmp < s.n) (hne : v ≠ tmp)
+    (h0 : absVar s tmp = []) {a : List Byte} (e : prependP s v a tmp = some s') :
+    Eff s s' v (a ++ absVar s v) := by
+  simp only [prependP, Option.bind_eq_bind, Option.pure_def] at e
+  cases h1 : ctorCopy s tmp v with
+  | none => simp [h1] at e
+  | some s1 =>
+    simp only [h1, Option.bind_some] at e
+    have E1 := eff_ctorCopy h ht h1
+    have hv1 : v < s1.n := by rw [E1.n]; exact hv
+    obtain ⟨dc, hdc⟩ := desc_some E1.inv tmp
+    have hlc := desc_len E1.inv hdc
+    simp only [hdc, Option.bind_some] at e
+    cases h2 : detach s1 v 0 (a.length + dc.len) with
+    | none => simp [h2] at e
+    | some s2 =>
+      simp only [h2, Option.bind_some] at e
+      obtain ⟨E2, X⟩ := eff_detach E1.inv hv1 h2
+      have hb : absVar s2 tmp = absVar s v := by rw [E2.other tmp (fun x => hne x.symm), E1.self]
+      simp only [content_eq E2.inv, Option.bind_some, hb] at e
+      rw [hlc, E1.self] at e X
+      -- split off the final destruction of the temporary
+      cases h3 : (do
+          let dv ← desc s2 v
+          let m ← memOf s2 dv.base
+          let m ← wr m 0 a
+          let m ← wr m a.length (absVar s v)
+          let m ← wr m (a.length + (absVar s v).length) [some 0]
+          writeOwn s2 v m (a.length + (absVar s v).length)) with
+      | none =>
+        simp only [Option.bind_eq_bind] at h3
+        cases hd2 : desc s2 v with
+        | none => simp [hd2] at e
+        | some dv =>
+          simp only [hd2, Option.bind_some] at e h3
+          cases hm0 : memOf s2 dv.base with
+          | none => simp [hm0] at e
+          | some mm =>
+            simp only [hm0, Option.bind_some] at e h3
+            cases hm1 : wr mm 0 a with
+            | none => simp [hm1] at e
+            | some m1 =>
+              simp only [hm1, Option.bind_some] at e h3
+              cases hm2 : wr m1 a.length (absVar s v) with
+              | none => simp [hm2] at e
+              | some m2 =>
+                simp only [hm2, Option.bind_some] at e h3
+                cases hm3 : wr m2 (a.length + (absVar s v).length) [some 0] with
+                | none => simp [hm3] at e
+                | some m3 =>
+                  simp only [hm3, Option.bind_some] at e h3
+                  simp [h3] at e
+      | some s3 =>
+        have E3 := eff_putFront E2.inv X h3
+        simp only [Option.bind_eq_bind] at h3
+        cases hd2 : desc s2 v with
+        | none => simp [hd2] at h3
+        | some dv =>
+          simp only [hd2, Option.bind_some] at e h3
+          cases hm0 : memOf s2 dv.base with
+          | none => simp [hm0] at h3
+          | some mm =>
+            simp only [hm0, Option.bind_some] at e h3
+            cases hm1 : wr mm 0 a with
+            | none => simp [hm1] at h3
+            | some m1 =>
+              simp only [hm1, Option.bind_some] at e h3
+              cases hm2 : wr m1 a.length (absVar s v) with
+              | none => simp [hm2] at h3
+              | some m2 =>
+                simp only [hm2, Option.bind_some] at e h3
+                cases hm3 : wr m2 (a.length + (absVar s v).length) [some 0] with
+                | none => simp [hm3] at h3
+                | some m3 =>
+                  simp only [hm3, Option.bind_some] at e h3
+                  simp only [h3, Option.bind_some, Option.some.injEq] at e
+                  subst e
+                  have E4 := eff_setEmpty E3.inv (v := tmp) (by rw [E3.n, E2.n, E1.n]; exact ht)
+                  refine ⟨E4.inv, by rw [E4.n, E3.n, E2.n, E1.n], by rw [E4.regs, E3.regs, E2.regs, E1.regs], ?_, ?_⟩
+                  · rw [E4.other v hne, E3.self]
+                  · intro u hu
+                    by_cases hut : u = tmp
+                    · subst hut; rw [E4.self, h0]
+                    · rw [E4.other u hut, E3.other u hu, E2.other u hu, E1.other u hut]
+
+/-! ### in-place edits: `fillFrom`, `replace(char, char)`, case maps -/
+
+theorem wr_get_out {m : List Byte} {off : Nat} {d m' : List Byte} (h : wr m off d = some m') {i : Nat}
+    (hi : i < off ∨ off + d.length ≤ i) : m'[i]? = m[i]? := by
+  obtain ⟨a, b⟩ := wr_eq h
+  subst b
+  rcases hi with hi | hi
+  · rw [List.append_assoc, List.getElem?_append_left (by simp only [List.length_take]; omega),
+      List.getElem?_take]
+    simp [hi]
+  · rw [List.getElem?_append_right (by simp only [List.length_append, List.length_take]; omega)]
+    simp only [List.length_append, List.length_take, List.getElem?_drop]
+    congr 1
+    omega
+
+theorem mapUntilNul_spec {f : Nat → Nat} : ∀ {m m' : List Byte}, mapUntilNul f m = some m' →
+    m'.length = m.length ∧ ∀ i : Nat, m[i]? = some (some 0) → m'[i]? = some (some 0)
+  | [], _, h => by simp [mapUntilNul] at h
+  | none :: _, _, h => by simp [mapUntilNul] at h
+  | some x :: r, m', h => by
+    simp only [mapUntilNul] at h
+    by_cases x0 : x = 0
+    · simp only [x0, if_true, Option.some.injEq] at h
+      subst h; subst x0
+      exact ⟨rfl, fun i hi => hi⟩
+    · simp only [x0, if_false, Option.map_eq_some_iff] at h
+      obtain ⟨r', hr, rfl⟩ := h
+      have ih := mapUntilNul_spec hr
+      refine ⟨by simp [ih.1], ?_⟩
+      intro i hi
+      cases i with
+      | zero => simp at hi; exact absurd hi x0
+      | succ j => simp only [List.getElem?_cons_succ] at hi ⊢; exact ih.2 j hi
+
+/-- an in-place rewrite of the chars of an exclusively owned block that keeps its size and terminator -/
+theorem eff_rewrite {s s' : St} (h : Inv s) {v L C : Nat} (X : Excl s v L C) {m' : List Byte}
+    (hm : ∀ b blk, s.vars v = .blk b → s.heap b = some blk →
+      m'.length = blk.bytes.length ∧ m'[L]? = some (some 0))
+    (e : writeOwn s v m' L = some s') : Eff s s' v (m'.take L) := by
+  obtain ⟨bk, blk, hloc, hb, r1, hl, _⟩ := X
+  have W := h.wf bk blk hb
+  have M := hm bk blk hloc hb
+  have inv' := inv_writeOwn h e (by
+    intro b' blk' hv' hb'
+    rw [hloc] at hv'; injection hv' with hv'; subst hv'
+    rw [hb] at hb'; injection hb' with hb'; subst hb'
+    exact ⟨by rw [M.1, W.1], by omega, M.2⟩)
+  have F := writeOwn_fields e
+  exact ⟨inv', F.1, F.2.1, abs_writeOwn_self e, fun w hw => abs_writeOwn_other h e hw⟩
+
+theorem eff_mapChars {s s' : St} (h : Inv s) {v : Nat} (hv : v < s.n) {f : Nat → Nat}
+    (e : mapChars s v f = some s') : ∃ val, Eff s s' v val := by
+  simp only [mapChars, Option.bind_eq_bind] at e
+  cases h1 : mview s v with
+  | none => simp [h1] at e
+  | some s1 =>
+    simp only [h1, Option.bind_some] at e
+    obtain ⟨E1, X⟩ := eff_mview h hv h1
+    obtain ⟨bk, blk, hloc, hb, r1, hl, hcap⟩ := X
+    have W := E1.inv.wf bk blk hb
+    simp only [desc_blk hloc hb, memOf, hb, Option.bind_some, Option.map_some] at e
+    cases hm : mapUntilNul f blk.bytes with
+    | none => simp [hm] at e
+    | some m' =>
+      simp only [hm, Option.bind_some] at e
+      have M := mapUntilNul_spec hm
+      have E2 := eff_rewrite E1.inv ⟨bk, blk, hloc, hb, r1, rfl, Nat.le_refl _⟩ (by
+        intro b' blk' hv' hb'
+        rw [hloc] at hv'; injection hv' with hv'; subst hv'
+        rw [hb] at hb'; injection hb' with hb'; subst hb'
+        exact ⟨M.1, M.2 _ W.2.2⟩) e
+      exact ⟨_, E1.trans E2⟩
+
+theorem eff_fillFrom {s s' : St} (h : Inv s) {v : Nat} (hv : v < s.n) {from_ c : Nat}
+    (e : fillFrom s v from_ c = some s') :
+    Eff s s' v ((absVar s v).take from_ ++ List.replicate ((absVar s v).length - from_) (some c)) := by
+  simp only [fillFrom, Option.bind_eq_bind] at e
+  cases h1 : mview s v with
+  | none => simp [h1] at e
+  | some s1 =>
+    simp only [h1, Option.bind_some] at e
+    obtain ⟨E1, X⟩ := eff_mview h hv h1
+    obtain ⟨bk, blk, hloc, hb, r1, hl, hcap⟩ := X
+    have W := E1.inv.wf bk blk hb
+    simp only [desc_blk hloc hb, memOf, hb, Option.bind_some, Option.map_some] at e
+    cases hm : wr blk.bytes (if from_ < blk.len then from_ else blk.len) (List.replicate (blk.len - from_) (some c)) with
+    | none => simp [hm] at e
+    | some m' =>
+      simp only [hm, Option.bind_some] at e
+      have hend : (if from_ < blk.len then from_ else blk.len) + (List.replicate (blk.len - from_) (some c)).length
+          = blk.len := by
+        simp only [List.length_replicate]; split <;> omega
+      have E2 := eff_rewrite E1.inv ⟨bk, blk, hloc, hb, r1, rfl, Nat.le_refl _⟩ (by
+        intro b' blk' hv' hb'
+        rw [hloc] at hv'; injection hv' with hv'; subst hv'
+        rw [hb] at hb'; injection hb' with hb'; subst hb'
+        refine ⟨wr_length hm, ?_⟩
+        rw [wr_get_out hm (Or.inr (by rw [hend]; exact Nat.le_refl _))]
+        exact W.2.2) e
+      refine (E1.trans E2).val_eq ?_
+      have t := wr_take_end hm
+      rw [hend] at t
+      rw [t]
+      have ha : absVar s1 v = blk.bytes.take blk.len := by simp [absVar, hloc, hb]
+      rw [← E1.self, ha, List.take_take, List.length_take]
+      have hlen : min blk.len blk.bytes.length = blk.len := by omega
+      rw [hlen]
+      congr 2
+      split <;> omega
+
+/-! ### calls that leave every value alone, and calls composed of several effects -/
+
+structure Silent (s s' : St) : Prop where
+  inv : Inv s'
+  n : s'.n = s.n
+  regs : s'.regs = s.regs
+  abs : ∀ u, absVar s' u = absVar s u
+
+theorem Silent.refl {s : St} (h : Inv s) : Silent s s := ⟨h, rfl, rfl, fun _ => rfl⟩
+
+theorem Eff.silent {s s' : St} {v : Nat} (E : Eff s s' v (absVar s v)) : Silent s s' :=
+  ⟨E.inv, E.n, E.regs, fun u => by
+    by_cases c : u = v
+    · subst c; exact E.self
+    · exact E.other u c⟩
+
+theorem Silent.trans {s s1 s2 : St} (a : Silent s s1) (b : Silent s1 s2) : Silent s s2 :=
+  ⟨b.inv, by rw [b.n, a.n], by rw [b.regs, a.regs], fun u => by rw [b.abs, a.abs]⟩
+
+theorem Silent.andThen {s s1 s2 : St} {v : Nat} {a : List Byte} (S : Silent s s1) (E : Eff s1 s2 v a) :
+    Eff s s2 v a :=
+  ⟨E.inv, by rw [E.n, S.n], by rw [E.regs, S.regs], E.self, fun w hw => by rw [E.other w hw, S.abs]⟩
+
+theorem Silent.eff {s s' : St} (S : Silent s s') (v : Nat) : Eff s s' v (absVar s v) :=
+  ⟨S.inv, S.n, S.regs, S.abs v, fun w _ => S.abs w⟩
+
+theorem silent_cview {s s' : St} (h : Inv s) {v : Nat} (hv : v < s.n) (e : cview s v = some s') : Silent s s' :=
+  (eff_cview h hv e).1.silent
+
+/-- an effect on a temporary that is emptied again is silent for the user variables; here: the
+    temporary ends with some value, the caller empties it -/
+theorem eff_two {s s1 s2 : St} {v t : Nat} {a b : List Byte} (hne : v ≠ t) (h0 : absVar s t = [])
+    (E1 : Eff s s1 v a) (E2 : Eff s1 s2 t b) (hb : b = []) : Eff s s2 v a :=
+  ⟨E2.inv, by rw [E2.n, E1.n], by rw [E2.regs, E1.regs], by rw [E2.other v hne, E1.self], fun w hw => by
+    by_cases c : w = t
+    · subst c; rw [E2.self, hb, h0]
+    · rw [E2.other w c, E1.other w hw]⟩
+
+/-! ### trim, token -/
+
+theorem eff_trim {s s' : St} (h : Inv s) {v tmp : Nat} (hv : v < s.n) (ht : tmp < s.n) (hne : v ≠ tmp)
+    (h0 : absVar s tmp = []) {chars : List Nat} (e : trim s v chars tmp = some s') : ∃ val, Eff s s' v val := by
+  obtain ⟨d, hd⟩ := desc_some h v
+  simp only [trim, hd, Option.bind_eq_bind, Option.bind_some] at e
+  by_cases l0 : d.len = 0
+  · simp only [l0, if_true, Option.pure_def, Option.some.injEq] at e
+    subst e; exact ⟨_, Eff.refl h v⟩
+  · simp only [l0, if_false] at e
+    cases hc : contentVal s v with
+    | none => simp [hc] at e
+    | some c =>
+      simp only [hc, Option.bind_some] at e
+      split at e
+      · cases hr : rdRange s d.base (d.off + (substrRange d.len ((c.takeWhile (inSet chars)).length : Int)
+            ((c.length - ((c.drop (c.takeWhile (inSet chars)).length).reverse.takeWhile (inSet chars)).length
+              - (c.takeWhile (inSet chars)).length : Nat) : Int)).1)
+            ((substrRange d.len ((c.takeWhile (inSet chars)).length : Int)
+            ((c.length - ((c.drop (c.takeWhile (inSet chars)).length).reverse.takeWhile (inSet chars)).length
+              - (c.takeWhile (inSet chars)).length : Nat) : Int)).2 - (substrRange d.len ((c.takeWhile (inSet chars)).length : Int)
+            ((c.length - ((c.drop (c.takeWhile (inSet chars)).length).reverse.takeWhile (inSet chars)).length
+              - (c.takeWhile (inSet chars)).length : Nat) : Int)).1) with
+        | none => simp [hr] at e
+        | some src =>
+          simp only [hr, Option.bind_some] at e
+          exact ⟨_, eff_assignTemp h hv ht hne h0 e⟩
+      · simp only [Option.pure_def, Option.some.injEq] at e
+        subst e; exact ⟨_, Eff.refl h v⟩
+
+theorem silent_findCFrom {s s1 : St} (h : Inv s) {w : Nat} (hw : w < s.n) {c st : Nat} {r : Option Nat}
+    (e : findCFrom s w c st = some (s1, r)) : Silent s s1 := by
+  obtain ⟨d, hd⟩ := desc_some h w
+  simp only [findCFrom, hd, Option.bind_eq_bind, Option.bind_some] at e
+  by_cases c1 : st ≥ d.len
+  · simp only [c1, if_true, Option.pure_def, Option.some.injEq, Prod.mk.injEq] at e
+    rw [← e.1]; exact Silent.refl h
+  · simp only [c1, if_false, Option.bind_eq_some_iff, Option.pure_def, Option.some.injEq, Prod.mk.injEq] at e
+    obtain ⟨s2, h2, _, _, e⟩ := e
+    rw [← e.1]; exact silent_cview h hw h2
+
+theorem eff_tokenC {s s' : St} (h : Inv s) {v w tmp : Nat} (hv : v < s.n) (hw : w < s.n) (ht : tmp < s.n)
+    (hne : v ≠ tmp) (h0 : absVar s tmp = []) {sep st : Nat} {r : Nat}
+    (e : tokenC s v w sep st tmp = some (s', r)) : ∃ val, Eff s s' v val := by
+  simp only [tokenC, Option.bind_eq_bind, Option.bind_eq_some_iff] at e
+  obtain ⟨⟨s1, f⟩, h1, d, hd, e⟩ := e
+  have S := silent_findCFrom h hw h1
+  have hv1 : v < s1.n := by rw [S.n]; exact hv
+  have ht1 : tmp < s1.n := by rw [S.n]; exact ht
+  have h01 : absVar s1 tmp = [] := by rw [S.abs, h0]
+  cases f with
+  | none =>
+    simp only [Option.bind_eq_some_iff, Option.pure_def, Option.some.injEq, Prod.mk.injEq] at e
+    obtain ⟨src, _, s2, h2, e, _⟩ := e
+    subst e
+    exact ⟨_, S.andThen (eff_assignTemp S.inv hv1 ht1 hne h01 h2)⟩
+  | some f =>
+    simp only [Option.bind_eq_some_iff, Option.pure_def, Option.some.injEq, Prod.mk.injEq] at e
+    obtain ⟨src, _, s2, h2, e, _⟩ := e
+    subst e
+    exact ⟨_, S.andThen (eff_assignTemp S.inv hv1 ht1 hne h01 h2)⟩
+
+theorem eff_tokenS {s s' : St} (h : Inv s) {v w tmp : Nat} (hv : v < s.n) (hw : w < s.n) (ht : tmp < s.n)
+    (hne : v ≠ tmp) (h0 : absVar s tmp = []) {seps : List Nat} {st : Nat} {r : Nat}
+    (e : tokenS s v w seps st tmp = some (s', r)) : ∃ val, Eff s s' v val := by
+  simp only [tokenS, Option.bind_eq_bind, Option.bind_eq_some_iff] at e
+  obtain ⟨s1, h1, hh, _, d, hd, e⟩ := e
+  have S := silent_cview h hw h1
+  have hv1 : v < s1.n := by rw [S.n]; exact hv
+  have ht1 : tmp < s1.n := by rw [S.n]; exact ht
+  have h01 : absVar s1 tmp = [] := by rw [S.abs, h0]
+  cases hf : strpbrkL hh seps with
+  | none =>
+    simp only [hf, Option.bind_eq_some_iff, Option.pure_def, Option.some.injEq, Prod.mk.injEq] at e
+    obtain ⟨src, _, s2, h2, e, _⟩ := e
+    subst e
+    exact ⟨_, S.andThen (eff_assignTemp S.inv hv1 ht1 hne h01 h2)⟩
+  | some f =>
+    simp only [hf, Option.bind_eq_some_iff, Option.pure_def, Option.some.injEq, Prod.mk.injEq] at e
+    obtain ⟨src, _, s2, h2, e, _⟩ := e
+    subst e
+    exact ⟨_, S.andThen (eff_assignTemp S.inv hv1 ht1 hne h01 h2)⟩
+
+/-! ### join -/
+
+theorem eff_joinLoop {v sep : Nat} : ∀ (toks : List (List Byte)) {s s' : St}, Inv s → v < s.n →
+    joinLoop s v sep toks = some s' → ∃ val, Eff s s' v val
+  | [], s, s', h, _, e => by
+    simp only [joinLoop, Option.some.injEq] at e; subst e; exact ⟨_, Eff.refl h v⟩
+  | [t], s, s', h, hv, e => by
+    simp only [joinLoop] at e; exact ⟨_, eff_appendP h hv e⟩
+  | t :: t2 :: rest, s, s', h, hv, e => by
+    simp only [joinLoop, Option.bind_eq_bind, Option.bind_eq_some_iff] at e
+    obtain ⟨s1, h1, s2, h2, e⟩ := e
+    have E1 := eff_appendP h hv h1
+    have hv1 : v < s1.n := by rw [E1.n]; exact hv
+    have E2 := eff_appendC E1.inv hv1 h2
+    have hv2 : v < s2.n := by rw [E2.n]; exact hv1
+    obtain ⟨val, E3⟩ := eff_joinLoop (t2 :: rest) E2.inv hv2 e
+    exact ⟨val, (E1.trans E2).trans E3⟩
+
+theorem eff_join {s s' : St} (h : Inv s) {v : Nat} (hv : v < s.n) {toks : List (List Byte)} {sep : Nat}
+    (e : join s v toks sep = some s') : ∃ val, Eff s s' v val := by
+  simp only [join, Option.bind_eq_bind, Option.bind_eq_some_iff] at e
+  obtain ⟨s1, h1, e⟩ := e
+  have E1 := eff_clear h hv h1
+  obtain ⟨val, E2⟩ := eff_joinLoop toks E1.inv (by rw [E1.n]; exact hv) e
+  exact ⟨val, E1.trans E2⟩
+
+/-! ### replace(needle, replacement) -/
+
+theorem eff_replaceLoop {hh nn : List Nat} {c : List Byte} {wr_ tmp : Nat} :
+    ∀ (fuel : Nat) {s s' : St} (pos m : Nat), Inv s → tmp < s.n →
+      replaceLoop hh nn c wr_ tmp fuel s pos m = some s' → ∃ val, Eff s s' tmp val
+  | 0, _, _, _, _, _, _, e => by simp [replaceLoop] at e
+  | fuel + 1, s, s', pos, m, h, ht, e => by
+    simp only [replaceLoop, Option.bind_eq_bind, Option.bind_eq_some_iff] at e
+    obtain ⟨s1, h1, s2, h2, e⟩ := e
+    have E1 := eff_appendP h ht h1
+    have ht1 : tmp < s1.n := by rw [E1.n]; exact ht
+    have E2 := eff_appendS E1.inv ht1 h2
+    have ht2 : tmp < s2.n := by rw [E2.n]; exact ht1
+    cases hf : strstrL (List.drop (m + nn.length) hh) nn with
+    | none =>
+      simp only [hf] at e
+      exact ⟨_, (E1.trans E2).trans (eff_appendP E2.inv ht2 e)⟩
+    | some k =>
+      simp only [hf] at e
+      obtain ⟨val, E3⟩ := eff_replaceLoop fuel _ _ E2.inv ht2 e
+      exact ⟨val, (E1.trans E2).trans E3⟩
+
+theorem eff_replaceS {s s' : St} (h : Inv s) {v wn wr_ tmp : Nat} (hv : v < s.n) (hwn : wn < s.n)
+    (ht : tmp < s.n) (hne : v ≠ tmp) (h0 : absVar s tmp = []) (e : replaceS s v wn wr_ tmp = some s') :
+    ∃ val, Eff s s' v val := by
+  obtain ⟨dn, hdn⟩ := desc_some h wn
+  simp only [replaceS, hdn, Option.bind_eq_bind, Option.bind_some] at e
+  by_cases l0 : dn.len = 0
+  · simp only [l0, if_true, Option.pure_def, Option.some.injEq] at e
+    subst e; exact ⟨_, Eff.refl h v⟩
+  · simp only [l0, if_false, Option.bind_eq_some_iff] at e
+    obtain ⟨s1, h1, s2, h2, hh, _, nn, _, e⟩ := e
+    have S1 := silent_cview h hv h1
+    have S2 := silent_cview S1.inv (by rw [S1.n]; exact hwn) h2
+    have S := S1.trans S2
+    cases hf : strstrL hh nn with
+    | none =>
+      simp only [hf, Option.pure_def, Option.some.injEq] at e
+      subst e; exact ⟨_, S.eff v⟩
+    | some m =>
+      simp only [hf, Option.bind_eq_some_iff, Option.pure_def, Option.some.injEq] at e
+      obtain ⟨dv, _, dr, _, c, _, s3, h3, s4, h4, s5, h5, e⟩ := e
+      subst e
+      have ht2 : tmp < s2.n := by rw [S.n]; exact ht
+      have E3 := eff_ctorCap S.inv ht2 h3
+      have ht3 : tmp < s3.n := by rw [E3.n]; exact ht2
+      obtain ⟨val4, E4⟩ := eff_replaceLoop _ _ _ E3.inv ht3 h4
+      have hv4 : v < s4.n := by rw [E4.n, E3.n, S.n]; exact hv
+      have E5 := eff_assign E4.inv hv4 h5
+      have ht5 : tmp < s5.n := by rw [E5.n, E4.n]; exact ht3
+      have E6 := eff_setEmpty E5.inv ht5
+      refine ⟨absVar s4 tmp, S.andThen ⟨E6.inv, by rw [E6.n, E5.n, E4.n, E3.n], by rw [E6.regs, E5.regs, E4.regs, E3.regs], ?_, ?_⟩⟩
+      · rw [E6.other v hne, E5.self]
+      · intro u hu
+        by_cases hut : u = tmp
+        · subst hut; rw [E6.self, S.abs, h0]
+        · rw [E6.other u hut, E5.other u hu, E4.other u hut, E3.other u hut]
+
+/-! ### printf -/
+
+theorem wr_get_last {m : List Byte} {off : Nat} {d : List Byte} {x : Byte} {m' : List Byte}
+    (h : wr m off (d ++ [x]) = some m') : m'[off + d.length]? = some x := by
+  have t := wr_take_end h
+  simp only [List.length_append, List.length_cons, List.length_nil] at t
+  have g : (m'.take (off + (d.length + 0 + 1)))[off + d.length]? = some x := by
+    rw [t]
+    have := (wr_eq h).1
+    simp only [List.length_append, List.length_cons, List.length_nil] at this
+    rw [← List.append_assoc, List.getElem?_append_right (by simp only [List.length_append, List.length_take]; omega)]
+    simp only [List.length_append, List.length_take]
+    have : off + d.length - (min off m.length + d.length) = 0 := by omega
+    simp [this]
+  rw [List.getElem?_take] at g
+  have : off + d.length < off + (d.length + 0 + 1) := by omega
+  simpa [this] using g
+
+/-- `data ++ NUL` stored at the start of an exclusively owned block, `len = data.length` -/
+theorem eff_store {s s' : St} (h : Inv s) {v L C : Nat} (X : Excl s v L C) {data : List Byte}
+    (e : (do
+      let d ← desc s v
+      let m ← memOf s d.base
+      let m ← wr m 0 (data ++ [some 0])
+      writeOwn s v m data.length) = some s') : Eff s s' v data := by
+  obtain ⟨bk, blk, hloc, hb, r1, hl, hC⟩ := X
+  have W := h.wf bk blk hb
+  simp only [desc_blk hloc hb, memOf, hb, Option.bind_eq_bind, Option.bind_some, Option.map_some,
+    Option.bind_eq_some_iff] at e
+  obtain ⟨m', hm, e⟩ := e
+  have hlen := wr_length hm
+  have hle := (wr_eq hm).1
+  simp only [List.length_append, List.length_cons, List.length_nil, W.1] at hle
+  have hterm := wr_get_last hm
+  simp only [Nat.zero_add] at hterm
+  have inv' := inv_writeOwn h e (by
+    intro b' blk' hv' hb'
+    rw [hloc] at hv'; injection hv' with hv'; subst hv'
+    rw [hb] at hb'; injection hb' with hb'; subst hb'
+    exact ⟨by rw [hlen, W.1], by omega, hterm⟩)
+  have F := writeOwn_fields e
+  refine ⟨inv', F.1, F.2.1, ?_, fun w hw => abs_writeOwn_other h e hw⟩
+  rw [abs_writeOwn_self e]
+  have t := wr_take_end hm
+  simp only [Nat.zero_add, List.take_zero, List.nil_append, List.length_append, List.length_cons,
+    List.length_nil] at t
+  have t2 : m'.take data.length = (m'.take (data.length + 1)).take data.length := by
+    rw [List.take_take]; congr 1; omega
+  rw [t2, t, List.take_left' rfl]
+
+theorem eff_printf {s s' : St} (h : Inv s) {v : Nat} (hv : v < s.n) {f : List Fmt} {r : Nat}
+    (e : printf s v f = some (s', r)) : Eff s s' v ((render f).map some) := by
+  simp only [printf, Option.bind_eq_bind, Option.bind_eq_some_iff] at e
+  obtain ⟨s1, h1, d, hd, mm, hmm, e⟩ := e
+  obtain ⟨E1, X1⟩ := eff_detach h hv h1
+  by_cases c : (render f).length < d.cap
+  · simp only [c, if_true, Option.bind_eq_some_iff, Option.pure_def, Option.some.injEq, Prod.mk.injEq] at e
+    obtain ⟨m', hm', s2, h2, e, _⟩ := e
+    subst e
+    have hl : (render f).length = ((render f).map some).length := by simp
+    rw [hl] at h2
+    have E2 := eff_store E1.inv X1 (data := (render f).map some) (by
+      simp only [hd, hmm, hm', Option.bind_eq_bind, Option.bind_some]; exact h2)
+    exact E1.trans E2
+  · simp only [c, if_false, Option.bind_eq_some_iff, Option.pure_def, Option.some.injEq, Prod.mk.injEq] at e
+    obtain ⟨s2, h2, d2, hd2, mm2, hmm2, m', hm', s3, h3, e, _⟩ := e
+    subst e
+    have hv1 : v < s1.n := by rw [E1.n]; exact hv
+    obtain ⟨E2, X2⟩ := eff_detach E1.inv hv1 h2
+    have hl : (render f).length = ((render f).map some).length := by simp
+    rw [hl] at h3
+    have E3 := eff_store E2.inv X2 (data := (render f).map some) (by
+      simp only [hd2, hmm2, hm', Option.bind_eq_bind, Option.bind_some]; exact h3)
+    exact (E1.trans E2).trans E3
+
 end Nstd.Str
